@@ -938,6 +938,12 @@ func tupleComponent(v ssa.Value) int {
 			// typeswitch / comma-ok merges: all edges must agree
 			k := -2
 			for _, e := range x.Edges {
+				if _, isConst := e.(*ssa.Const); isConst {
+					continue // the zero value an inlined helper returns next to an error
+				}
+				if e == ssa.Value(x) || onlyConstants(e, 0) {
+					continue
+				}
 				kk := tupleComponent(e)
 				if k == -2 {
 					k = kk
@@ -945,12 +951,34 @@ func tupleComponent(v ssa.Value) int {
 					return -1
 				}
 			}
+			if k == -2 {
+				return -1
+			}
 			return k
 		default:
 			return -1
 		}
 	}
 	return -1
+}
+
+// onlyConstants: v is a constant or a phi of such values.
+func onlyConstants(v ssa.Value, d int) bool {
+	if d > 4 {
+		return false
+	}
+	switch x := v.(type) {
+	case *ssa.Const:
+		return true
+	case *ssa.Phi:
+		for _, e := range x.Edges {
+			if e != ssa.Value(x) && !onlyConstants(e, d+1) {
+				return false
+			}
+		}
+		return true
+	}
+	return false
 }
 
 // freshValue: the map/slice was allocated in the current function.
